@@ -210,7 +210,6 @@ static void checkInvariants(World& w) {
             DOMElement* e = (DOMElement*)n; DOMNamedNodeMap* m = e->getAttributes();
             XMLSize_t len = m ? m->getLength() : 0;
             if (e->hasAttributes() != (len > 0)) w.fail(me + ": hasAttributes inconsistent");
-            std::set<U16> names; std::set<std::pair<U16, U16> > nsnames;
             for (XMLSize_t k = 0; k < len; k++) {
                 DOMAttr* a = (DOMAttr*)m->item(k);
                 if (!a) { w.fail(me + ": attributes.item(" + std::to_string((long)k) + ") is null"); break; }
@@ -219,13 +218,16 @@ static void checkInvariants(World& w) {
                 if (a->getOwnerElement() != e) w.fail(me + ": attribute " + w.ids(a) + " (" + esc(a->getNodeName()) + ") in the map has ownerElement " + w.ids(a->getOwnerElement()));
                 if (a->getParentNode() != 0) w.fail(me + ": attribute has a parentNode");
                 if (docOf(a) != docOf(e)) w.fail(me + ": attribute ownerDocument differs from the element's");
-                if (!names.insert(u16(a->getNodeName())).second && !a->getLocalName()) w.fail(me + ": two attributes named " + esc(a->getNodeName()));
+                // (lookups by name: the map may legitimately hold a DOM Level 1 and a namespace-aware attribute of the same
+                //  nodeName, or two namespace-aware ones of the same expanded name put there through the Level 1 methods;
+                //  so only "a lookup by the node's own key finds a node with that key" is required)
                 if (a->getLocalName()) {
-                    if (!nsnames.insert(std::make_pair(u16(a->getNamespaceURI()), u16(a->getLocalName()))).second) w.fail(me + ": two attributes with the same namespaceURI/localName " + esc(a->getNodeName()));
-                    if (m->getNamedItemNS(a->getNamespaceURI(), a->getLocalName()) != a) w.fail(me + ": getNamedItemNS does not find attribute " + esc(a->getNodeName()));
-                } else {
-                    if (m->getNamedItem(a->getNodeName()) != a) w.fail(me + ": getNamedItem does not find attribute " + esc(a->getNodeName()));
+                    DOMNode* f = m->getNamedItemNS(a->getNamespaceURI(), a->getLocalName());
+                    if (!f || !XMLString::equals(f->getLocalName(), a->getLocalName()) || !XMLString::equals(f->getNamespaceURI(), a->getNamespaceURI())) w.fail(me + ": getNamedItemNS does not find attribute " + esc(a->getNodeName()));
                 }
+                { DOMNode* f = m->getNamedItem(a->getNodeName());
+                  if (!f || !XMLString::equals(f->getNodeName(), a->getNodeName())) w.fail(me + ": getNamedItem does not find attribute " + esc(a->getNodeName())); }
+                for (XMLSize_t k2 = k + 1; k2 < len; k2++) if (m->item(k2) == a) w.fail(me + ": the same attribute node occurs twice in the map");
             }
             if (m && m->item(len) != 0) w.fail(me + ": attributes.item(length) != null");
         }
